@@ -193,10 +193,13 @@ WRetLock(w) ==
                                         ELSE IF x \in gc THEN NoB ELSE keys[x]]
              /\ chans' = Append([i \in DOMAIN chans |->
                                    IF \E x \in gc : keys[x].ch = i THEN [buf |-> <<>>, closed |-> TRUE] ELSE chans[i]],
-                                [buf |-> <<c>>, closed |-> FALSE])
+                                [buf |-> IF cfg.mpk >= 1 THEN <<c>> ELSE <<>>, closed |-> FALSE])
+             \* MaxConnsPerKey 0 ("keep no idle connections"): the channel is unbuffered,
+             \* the non-blocking send fails and the connection is closed
+             /\ async' = IF cfg.mpk >= 1 THEN async ELSE async \cup {c}
              /\ cst' = Closed(dead)
              /\ obs' = ObsReturnReturn(ObsCloseSeq(obs, dead), w)
-             /\ UNCHANGED <<keysNil, async>>
+             /\ UNCHANGED keysNil
   /\ wpc' = [wpc EXCEPT ![w] = "idle"] /\ wheld' = [wheld EXCEPT ![w] = ""]
   /\ UNCHANGED <<cfg, now, cusable, clast, nconn, wkey, wch, wcur, wleft, sweepV, ppc, breaks, ended>>
 
